@@ -84,6 +84,31 @@ CHECKS = {
                 "directions; tens of thousands of grammar mutants must be refused exactly when ill-formed.",
         "note": "default settings (route_aware off); IPv4 components with leading zeros are skipped as ambiguous",
     },
+    "C14": {
+        "level": "exploration",
+        "design_ref": "DESIGN.md 3 C14",
+        "technique": "runtime monitor: lock-step reference scheduler over the real TaskManager/core loops under a virtual clock; class invariant on the heap; threaded stress",
+        "text": "The real TaskManager, core.run_once and core.run are executed under a virtual clock (only "
+                "bacpypes.task._time is replaced).  Every operation sequence up to length 4/5 (3 tasks) and 5/6 (2 "
+                "tasks), random histories of length 200 with callbacks that re-install/suspend/defer/raise, a grid of "
+                "recurring intervals x offsets x clock origins, every subset of raising members in deferred batches "
+                "up to 5/6 under both loops, and producer threads calling deferred() are compared with a reference "
+                "scheduler (order, never early, once, suspended never fires, exactly-once deferred in order, "
+                "isolation of failures); a heap/flag invariant is evaluated after every TaskManager method.",
+        "note": "how deferred calls and tasks due at the same instant interleave is not judged; natural thread switch points only",
+    },
+    "C19": {
+        "level": "exploration",
+        "design_ref": "DESIGN.md 3 C19",
+        "technique": "runtime monitor: two-index class invariant (icontract) + reference dictionary on RouterInfoCache; wire-level next-hop observer on a real node",
+        "text": "RouterInfoCache is driven with every operation sequence up to length 4/5 over learn/forget-router/"
+                "forget-destination/renumber on a reduced universe and with random length-300 histories on the full "
+                "one; a two-index agreement invariant runs after every public method and all lookups are compared "
+                "with a newest-wins reference.  The same kind of history is injected as real I-Am-Router, routed "
+                "(SADR) and Network-Number-Is frames into a node on the virtual LAN and the next hop of probe "
+                "packets is read from the wire with an independent NPCI decoder.",
+        "note": "renumbering onto a network number already in use is excluded; network-layer deletions are API calls (no message triggers them)",
+    },
 }
 
 NOT_APPLICABLE = {pid: _PENDING for pid in ("C%02d" % i for i in range(1, 21)) if pid not in CHECKS}
